@@ -26,7 +26,7 @@ def run(ctx):
     allc, allo = [], {}
     kinds = {}
     for b in range(0, n, batch):
-        cases = PF.gen_cases(rng, min(batch, n - b), streams=("err", "err-guarded", "err-lone", "err-guarded"), prefix="e%d" % (b // batch))
+        cases = PF.gen_cases(rng, min(batch, n - b), streams=("err", "err-guarded", "err-lone", "err-guarded", "err-safe"), prefix="e%d" % (b // batch))
         r = PF.run_suite(ctx, cases, styles_seed=ctx.seed + 8 + b)
         if "error" in r:
             ctx.obligation("progfuzz suite ran", False)
